@@ -41,11 +41,12 @@
    used; z3 (lemmas.py runs cpp on this header alone, without GKC_REM_OPAQUE, which only the prelude of spec.c
    defines) proves that the closed form is such a table.  No function contract of the unit mentions GKC_REM: it only
    occurs in the loop invariant of finish_cov and in the lemma statements. */
-struct gkc_rows_tab { int t[GKC_MAXDIM + 2]; };
-extern struct gkc_rows_tab gv_rows_rem;
+/* an extern array of unbounded size that is defined nowhere: CBMC gives it arbitrary content and treats reads with
+   its array theory (functional consistency only) -- i.e. an uninterpreted function int -> int, never written */
+extern int gv_rows_rem[__CPROVER_constant_infinity_uint];
 extern int gv_tab_d, gv_tab_b;
 #define GKC_TAB_FOR(d, b) ((d) == gv_tab_d && (b) == gv_tab_b)
-#define GKC_REM(d, b, r, c) (gv_rows_rem.t[r] - ((c) - (r)))
+#define GKC_REM(d, b, r, c) ((long)gv_rows_rem[r] - ((c) - (r)))
 #else
 #define GKC_TAB_FOR(d, b) (0 == 0)
 #define GKC_REM(d, b, r, c) GKC_REM_CLOSED(d, b, r, c)
